@@ -122,3 +122,73 @@ pub fn c12_variant_lookup_by_name() {
     let f1 = p.b.get_variant_datum_definition_by_name(v0, name);
     assert!(f1.is_some() == expected(&p, which));
 }
+
+// ---------------------------------------------------------------------------------------------
+// C18: add_dynamic_datum (the one datum-adding entry point Verus cannot take: `T: AsRef<str>`).
+// Contract: the recorded size / alignment / may-be-uninitialised flag are exactly what the resolver
+// answers for the requested type name; the datum is not placed yet.  The resolver is a specification
+// resolver with symbolic answers for two type names.  BOUNDED: first request on a fresh builder.
+use truc::record::{
+    definition::builder::native::NativeRecordDefinitionBuilder,
+    type_resolver::{DynamicTypeInfo, TypeInfo, TypeResolver},
+};
+
+struct SpecResolver {
+    p: (usize, usize, bool),
+    q: (usize, usize, bool),
+}
+
+impl TypeResolver for SpecResolver {
+    fn type_info<T>(&self) -> TypeInfo {
+        unreachable!()
+    }
+    fn dynamic_type_info(&self, type_name: &str) -> DynamicTypeInfo {
+        let (size, align, allow_uninit) = if type_name == "P" { self.p } else { self.q };
+        DynamicTypeInfo { info: TypeInfo { name: String::new(), size, align }, allow_uninit }
+    }
+}
+
+#[kani::proof]
+#[kani::unwind(6)]
+#[kani::stub(alloc::fmt::format, fmt_stub)]
+pub fn c18_add_dynamic_datum_records_the_resolvers_answer() {
+    let r = SpecResolver { p: (kani::any(), kani::any(), kani::any()), q: (kani::any(), kani::any(), kani::any()) };
+    let (p, q) = (r.p, r.q);
+    let mut b = NativeRecordDefinitionBuilder::new(r);
+    let ask_p: bool = kani::any();
+    let id = b.add_dynamic_datum("a", if ask_p { "P" } else { "Q" }).unwrap();
+    let d = b.get_current_datum_definition_by_name("a").unwrap();
+    let want = if ask_p { p } else { q };
+    assert!(d.id() == id);
+    assert!(d.details().size() == want.0, "C18: recorded size is not the resolver's answer for the requested type");
+    assert!(d.details().type_align() == want.1, "C18: recorded alignment is not the resolver's answer for the requested type");
+    assert!(d.details().allow_uninit() == want.2, "C18: recorded may-be-uninitialised flag is not the resolver's answer");
+    assert!(d.details().offset() == usize::MAX, "C18: a datum is placed before its variant is closed");
+    kani::cover!(ask_p && want.2, "reachable: first type, may be uninitialised");
+}
+
+/// second request: a clashing name is rejected and records nothing; another name records the answer
+#[kani::proof]
+#[kani::unwind(6)]
+#[kani::stub(alloc::fmt::format, fmt_stub)]
+pub fn c18_add_dynamic_datum_second_request() {
+    let r = SpecResolver { p: (kani::any(), kani::any(), kani::any()), q: (kani::any(), kani::any(), kani::any()) };
+    let (p, q) = (r.p, r.q);
+    let mut b = NativeRecordDefinitionBuilder::new(r);
+    let first = b.add_dynamic_datum("a", "P").unwrap();
+    let clash: bool = kani::any();
+    let res = b.add_dynamic_datum(if clash { "a" } else { "b" }, "Q");
+    assert!(res.is_err() == clash, "C12: add_dynamic_datum must fail exactly for a name the variant being built carries");
+    let a = b.get_current_datum_definition_by_name("a").unwrap();
+    assert!(a.id() == first && a.details().size() == p.0 && a.details().type_align() == p.1 && a.details().allow_uninit() == p.2,
+        "C18: an earlier datum's type information changed");
+    match res {
+        Ok(id) => {
+            let d = b.get_current_datum_definition_by_name("b").unwrap();
+            assert!(d.id() == id && id != first);
+            assert!(d.details().size() == q.0 && d.details().type_align() == q.1 && d.details().allow_uninit() == q.2 && d.details().offset() == usize::MAX,
+                "C18: recorded type information is not the resolver's answer for the requested type");
+        }
+        Err(_) => assert!(b.get_current_datum_definition_by_name("b").is_none()),
+    }
+}
